@@ -167,20 +167,25 @@ func (f *c12Fake) pump(wait time.Duration) bool {
 		}
 		any = true
 		data := p[:rn]
+		gotFds := false
 		if oobn > 0 {
 			if cms, err := syscall.ParseSocketControlMessage(oob[:oobn]); err == nil && len(cms) > 0 {
 				if fds, err := syscall.ParseUnixRights(&cms[0]); err == nil {
 					f.gotFd = append(f.gotFd, fds...)
-					f.parse()
-					f.msgs = append(f.msgs, "fds:1")
+					gotFds = true
 					if len(data) > 0 {
-						data = data[1:] // the dummy byte that carries the descriptors
+						// the dummy byte that carries the descriptors is the LAST byte of this read: the kernel may hand
+						// over earlier, not yet read messages in the same call, but never anything behind the descriptors
+						data = data[:len(data)-1]
 					}
 				}
 			}
 		}
 		f.buf = append(f.buf, data...)
 		f.parse()
+		if gotFds {
+			f.msgs = append(f.msgs, "fds:1")
+		}
 		deadline = time.Now().Add(10 * time.Millisecond) // drain what follows immediately
 	}
 }
